@@ -727,6 +727,10 @@ def judge_case(d, seed=0):
             o10 = call(d, functional="median")
             if o10[0] != "rows" or any(not relclose(a, b, 1e-12) for ra, rb in zip(o10[1], rows) for a, b in zip(ra, rb)):
                 bad.append(f"C07 alias: functional='median' gives {o10[:2]}, quantile at 0.5 gives rows")
+            # the level is documented as neglected for the median
+            o11 = call(d, functional="median", level=0.2)
+            if o11[0] != "rows" or any(not relclose(a, b, 1e-12) for ra, rb in zip(o11[1], rows) for a, b in zip(ra, rb)):
+                bad.append(f"C07 alias: functional='median', level=0.2 gives {o11[:2]}, quantile at 0.5 gives rows (level must be neglected for the median)")
     return bad, o
 
 
